@@ -44,6 +44,18 @@ json Alpha::Name(TA::SymbolType s) const
 	return it->second.first;
 }
 
+// "huge" presentation: a state number >= 10^9 in a case stands for the library state 2^33 + (q - 10^9) (legal, beyond 32 bits;
+// TLC's integers are 32-bit, so the specification side keeps the small stand-in); read back the same way
+static const size_t HUGE_JSON = 1000000000ULL;
+static const size_t HUGE_LIB = 1ULL << 33;
+size_t StIn(size_t q) { return q >= HUGE_JSON ? q - HUGE_JSON + HUGE_LIB : q; }
+size_t StOut(size_t q)
+{
+	if (q >= HUGE_LIB && q - HUGE_LIB < HUGE_JSON) { return q - HUGE_LIB + HUGE_JSON; }
+	if (q >= HUGE_JSON) { return 2000000000ULL + q % 1000000; }      // a number no case uses (keeps the trace within 32 bits)
+	return q;
+}
+
 void BuildTA(TA& aut, const json& j, Alpha& alpha)
 {
 	aut.SetAlphabet(alpha.ptr);
@@ -52,13 +64,13 @@ void BuildTA(TA& aut, const json& j, Alpha& alpha)
 		for (const json& r : j.at("rules"))
 		{
 			TA::StateTuple kids;
-			for (const json& k : r.at(1)) { kids.push_back(k.get<size_t>()); }
-			aut.AddTransition(kids, alpha.Sym(r.at(0).get<std::string>(), kids.size()), r.at(2).get<size_t>());
+			for (const json& k : r.at(1)) { kids.push_back(StIn(k.get<size_t>())); }
+			aut.AddTransition(kids, alpha.Sym(r.at(0).get<std::string>(), kids.size()), StIn(r.at(2).get<size_t>()));
 		}
 	}
 	if (j.contains("fin"))
 	{
-		for (const json& q : j.at("fin")) { aut.SetStateFinal(q.get<size_t>()); }
+		for (const json& q : j.at("fin")) { aut.SetStateFinal(StIn(q.get<size_t>())); }
 	}
 }
 
@@ -72,15 +84,16 @@ TA MakeTA(const json& j, Alpha& alpha)
 json ReadTA(const TA& aut, const Alpha& alpha)
 {
 	json res;
-	std::vector<size_t> fin(aut.GetFinalStates().begin(), aut.GetFinalStates().end());
+	std::vector<size_t> fin;
+	for (size_t q : aut.GetFinalStates()) { fin.push_back(StOut(q)); }
 	std::sort(fin.begin(), fin.end());
 	res["fin"] = fin;
 	json rules = json::array();
 	for (const TA::Transition& t : aut)
 	{
 		json kids = json::array();
-		for (size_t k : t.GetChildren()) { kids.push_back(k); }
-		rules.push_back(json::array({alpha.Name(t.GetSymbol()), kids, t.GetParent()}));
+		for (size_t k : t.GetChildren()) { kids.push_back(StOut(k)); }
+		rules.push_back(json::array({alpha.Name(t.GetSymbol()), kids, StOut(t.GetParent())}));
 	}
 	res["rules"] = rules;
 	return res;
@@ -88,7 +101,8 @@ json ReadTA(const TA& aut, const Alpha& alpha)
 
 json StateMapToJson(const VATA::AutBase::StateToStateMap& m)
 {
-	std::vector<std::pair<size_t, size_t>> v(m.begin(), m.end());
+	std::vector<std::pair<size_t, size_t>> v;
+	for (auto& p : m) { v.push_back(std::make_pair(StOut(p.first), StOut(p.second))); }
 	std::sort(v.begin(), v.end());
 	json res = json::array();
 	for (auto& p : v) { res.push_back(json::array({p.first, p.second})); }
